@@ -41,6 +41,12 @@ NAMES = ["a", "b", "c"]
 SCRIPTS = [[], ["l1"], ["l1", "l2"], ["l3"]]
 
 
+def _omit_parity(blocks, i) -> bool:
+    """deterministic coin per (case, position): True = send an explicit empty list, False = leave the field out"""
+    import zlib
+    return zlib.crc32(repr((blocks, i)).encode()) % 2 == 0
+
+
 def impl(blocks: List[Dict[str, Any]]) -> Dict[str, Any]:
     from func_adl_xAOD.common.meta_data import JobScriptSpecification, generate_script_block
 
@@ -68,8 +74,12 @@ def impl_e2e(blocks: List[Dict[str, Any]]) -> Dict[str, Any]:
     import pipeline as P
 
     src = "ds0"
-    for b in reversed(blocks):  # extract_metadata hands the OUTERMOST MetaData call over first
+    for i, b in reversed(list(enumerate(blocks))):  # extract_metadata hands the OUTERMOST MetaData call over first
         md = {"metadata_type": "add_job_script", "name": b["name"], "script": list(b["script"]), "depends_on": list(b["deps"])}
+        # a block without dependencies is sent the way users send it half the time: with the key left out, so that the
+        # metadata default is what the algorithm sees, not a fresh list made here
+        if not b["deps"] and not _omit_parity(blocks, i):
+            del md["depends_on"]
         src = f"MetaData({src}, {md!r})"
     src = f"Select({src}, lambda e: e.Jets('AntiKt4EMTopoJets').Count())"
     r = P.translate_functional("atlas", src)
